@@ -67,7 +67,7 @@ impl Part for InProcess {
     }
     fn cases(&self, tier: Tier) -> usize {
         match tier {
-            Tier::Quick => 24_000,
+            Tier::Quick => 72_000,
             Tier::Thorough => 1_200_000,
         }
     }
@@ -106,7 +106,7 @@ impl Part for InProcess {
 pub fn extra_parts(res: &mut CheckResult, tier: Tier, seed: u64, known: &Known) {
     let opts = wild_opts();
     let n = match tier {
-        Tier::Quick => 4_000,
+        Tier::Quick => 8_000,
         Tier::Thorough => 120_000,
     };
     let procs = match tier {
